@@ -70,6 +70,11 @@ def evaluate_expression(expression: str, context: dict[str, Any]) -> Any:
     Raises:
         ExpressionError: If the expression is invalid or uses unsupported features
     """
+    if not isinstance(expression, str):
+        # Conditions come from user-defined (often JSON) workflows; a bool,
+        # number or mapping is malformed input, and callers only catch
+        # ExpressionError.
+        raise ExpressionError(f"Expression must be a string, got {type(expression).__name__}")
     if not expression or not expression.strip():
         raise ExpressionError("Empty expression")
 
